@@ -58,6 +58,11 @@ def check(run):
     # every container the generic code can be instantiated with hands out its elements in logical order
     from common import dep_backends as _dep_backends
     _dep_backends(run)
+    # the two fractional-difference entry points (tevec, feature `fdiff`): a value only with enough valid elements
+    import fdiff
+    keep_ = run.config
+    fdiff.check(run, run.facts('full'))
+    run.config = keep_
     return run.finish(
         'other',
         'For every rolling entry point (36 in tea-rolling, 2 in tevec behind `fdiff`): the '
